@@ -233,6 +233,29 @@ def main(tier):
                         lang, Pv, "accepted" if st == "OK" else "delivered values from", name), {"mutation": name, "protocol": Pv, "lang": lang, "input_hex": d[:60].hex(), "status": st, "message": msg[:300]})
                 elif st in ("DIED", "HANG"):
                     chk.fail("%s/binary/crash-on-corrupted-header/versioned-reader/%s" % (lang, name), "%s: %s" % (st, msg[-300:]), {"mutation": name, "protocol": Pv})
+    # several readers in one process: after a reader of protocol A has been opened (and has accepted A's stream), a reader of
+    # protocol B must still refuse A's stream, in both formats and both languages, in both orders
+    twop = {}
+    for Pv in ("Proto", "Same"):
+        vsteps = evo.steps[Pv]
+        bd = refcodec.encode_protocol(vsteps, default_values(vsteps), evo.schemas[Pv], None)
+        stn, ndj, _ = evo.cpp.call(Pv, "b2n", bd, 1)
+        twop[Pv] = (bd, ndj)
+    for lang in ("cpp", "py"):
+        drv = evo.cpp if lang == "cpp" else evo.py
+        for first, second in (("Proto", "Same"), ("Same", "Proto")):
+            for fmt, mode, idx in (("binary", "b2b", 0), ("ndjson", "n2b", 1)):
+                st1, _, msg1 = drv.call(first, mode, twop[first][idx], 1)        # opens the first protocol's reader on its own stream
+                st2, out2, msg2 = drv.call(second, mode, twop[first][idx], 1)    # the other protocol's reader on the same stream
+                st3, _, msg3 = drv.call(second, mode, twop[second][idx], 1)      # ... and on its own stream
+                chk.count(3)
+                chk.nontriv(("two-readers", lang, first, fmt))
+                if st1 != "OK" or st3 != "OK":
+                    chk.fail("%s/%s/own-stream-rejected-after-another-reader" % (lang, fmt), "%s %s: a reader rejects its own protocol's stream after a reader of another protocol was used in the same process: %s" % (
+                        lang, fmt, (msg1 if st1 != "OK" else msg3)[:200]), {"lang": lang, "format": fmt, "first": first, "second": second})
+                if st2 == "OK":
+                    chk.fail("%s/%s/foreign-stream-accepted-after-another-reader" % (lang, fmt), "%s %s reader of %s accepted a stream of %s after a %s reader had been opened in the same process" % (
+                        lang, fmt, second, first, first), {"lang": lang, "format": fmt, "first": first, "second": second})
     # header corruptions of the base stream
     bl, bp, _ = vs[0]
     pr0 = prs[0]
